@@ -103,7 +103,7 @@ pub fn run(cfg: &Cfg, rep: &mut Report) {
     });
 
     // ---- cause-known workload
-    let n = cfg.n(20, 120_000, 48_000_000);
+    let n = cfg.n(20, 120_000, 4_000_000);
     run_cases(cfg, "causes", n, rep, |rng, ctx| {
         let alnum = b"ABCDEFGHIJKLMNOPQRSTUVWXYZabcdefghijklmnopqrstuvwxyz0123456789";
         let word = |rng: &mut Rng, n: usize| -> Vec<u8> {
